@@ -133,7 +133,7 @@ Definition is_valid_qname_case (c : str * qname_sp * str * nsmap * option str) :
   match wf_qname sp && guard_ws a b, val_qname env sp with true, Some _ => true | _, _ => false end.
 (* clause 3 of the guard *)
 Definition qname_case_py_guard (c : str * qname_sp * str * nsmap * option str) : bool :=
-  let '(a, sp, b, env, obs) := c in qname_sp_py_guard sp.
+  let '(a, sp, b, env, obs) := c in qname_sp_edge_guard sp.
 (* serialize with a prefix map: the text is an xs:QName literal that, under the
    resulting bindings, denotes the value; (uri, local, map, observed text, observed map) *)
 Definition parse_qname_sp (s : str) : qname_sp :=
@@ -162,6 +162,8 @@ Definition qname_rt_clark_ok (c : option str * str * option nsmap) : bool :=
 (* the namespace name is a plain ASCII URI: is_uri must accept it (C05_is_uri_accepts_plain) *)
 Definition qname_rt_uri_plain (c : option str * str * option nsmap) : bool :=
   let '(uri, local, m) := c in match uri with Some u => spec_uri_plain u | None => false end.
+Definition qname_rt_edges_ok (c : option str * str * option nsmap) : bool :=
+  let '(uri, local, m) := c in qname_rt_clause_edges local.
 Definition qname_rt_default_ok (c : option str * str * option nsmap) : bool :=
   let '(uri, local, m) := c in qname_rt_clause_default uri m.
 (* the faithful model explains the failure: deser (ser v) <> v in the model too *)
